@@ -1,7 +1,7 @@
 """C01 — cached outputs equal a fresh computation.
 tie: K1 (real decorators vs Lean M', value/exception/parameter projection) + model-independent oracle on the
 five real framework classes (cached vs fresh from parameter_values) over random histories + corpus."""
-import k1, realfuzz
+import k1, k2, realfuzz
 from common import *
 
 CORPUS = os.path.join(VERIF, "corpus", "c01_histories.json")
@@ -60,7 +60,13 @@ def run(ctx):
                                       "what": f"{h.clsname}: cached object differs from a fresh object: {(v2 or vv)[0]}",
                                       "replay": {"kind": "real-history", "history": hmin.to_json(), "script": realfuzz.describe(hmin),
                                                  "violation": (v2 or vv)[0], "tree": tree_hash()}})
+    # --- K2: generated descriptors vs the real classes
+    k2res = k2.run_k2(quick)
+    if k2res["bad_edges"] or k2res["bad_index"]:
+        out["broken"].append({"kind": "correspondence", "what": "K2: a read observed on the real classes is not in the generated read program (translator/model out of date)",
+                              "detail": (k2res["bad_edges"] + k2res["bad_index"])[:5]})
     out["coverage"] = {
+        "k2": {k: v for k, v in k2res.items() if k not in ("bad_edges", "bad_index")},
         "evaluations": stats["ops"] + tot["ops"],
         "traces_validated_against_impl": stats["cases"],
         "programs": stats["cases"], "disagreements_checked": stats["cases"],
